@@ -33,15 +33,22 @@ def INTEGER_der_content (bs : Bytes) : Bytes := strip bs
 /-- `INTEGER_encode_der` (also the DER encoder of the wide `ENUMERATED_t`) -/
 def INTEGER_encode_der (t : Tag) (bs : Bytes) : Bytes := derPrimitive t (INTEGER_der_content bs)
 
-/-- the fake INTEGER built by `NativeInteger_encode_der`: `sizeof(long)` octets, most significant
-    first, of `*(const unsigned long *)ptr` -/
+/-- the `sizeof(long)` octets, most significant first, of `*(const unsigned long *)ptr` -/
 def nativeOctets (w : Nat) : Bytes := toBEn 8 w
 
-def NativeInteger_der_content (w : Nat) : Bytes := INTEGER_der_content (nativeOctets w)
+/-- the fake INTEGER built by `NativeInteger_encode_der`: the octets of the cell; when the descriptor has
+    `field_unsigned` and the most significant bit is set, a leading 00 octet is put in front
+    (`ubuf[1 + sizeof(long)]`, since the repair of finding F20) so that the value stays positive -/
+def nativeFakeINTEGER (unsigned : Bool) (w : Nat) : Bytes :=
+  if unsigned && isNegative (nativeOctets w) then 0 :: nativeOctets w else nativeOctets w
 
-/-- `NativeInteger_encode_der` (also the DER encoder of NativeEnumerated).  No `field_unsigned`
-    test: an `unsigned long ≥ 2^63` is emitted as a negative INTEGER (finding F20). -/
-def NativeInteger_encode_der (t : Tag) (w : Nat) : Bytes := INTEGER_encode_der t (nativeOctets w)
+def NativeInteger_der_content (unsigned : Bool) (w : Nat) : Bytes :=
+  INTEGER_der_content (nativeFakeINTEGER unsigned w)
+
+/-- `NativeInteger_encode_der` (also the DER encoder of NativeEnumerated, whose descriptors never have
+    `field_unsigned`) -/
+def NativeInteger_encode_der (unsigned : Bool) (t : Tag) (w : Nat) : Bytes :=
+  INTEGER_encode_der t (nativeFakeINTEGER unsigned w)
 
 /-! ### BER decoding of the contents octets (after `ber_check_tags`) -/
 
